@@ -129,6 +129,8 @@ Qed.
 
 Lemma len0_is_empty : forall s : str, Nat.eqb (length s) 0 = is_empty s.
 Proof. destruct s; reflexivity. Qed.
+Lemma ltb0_len : forall s : str, Nat.ltb 0 (length s) = negb (is_empty s).
+Proof. destruct s; reflexivity. Qed.
 
 (* the loop `for t in qtypes: token, string = t.check(string); if token: break` followed by
    `if not token: raise`, against the model's try_types *)
@@ -154,7 +156,7 @@ Qed.
 
 Lemma bridge_parse_token : forall s ns, gen_parse_token s ns = parse_token s.
 Proof.
-  intros s ns. unfold gen_parse_token, parse_token. cbn [negb]. rewrite !len0_is_empty.
+  intros s ns. unfold gen_parse_token, parse_token. cbn [negb]. rewrite ?len0_is_empty.
   destruct (is_empty s); [reflexivity|]. cbv zeta. destruct (is_empty (strip s)); [reflexivity|].
   rewrite bridge_qtypes. apply bridge_parse_token_loop. reflexivity.
 Qed.
@@ -304,14 +306,14 @@ Section ParseGroup.
         apply refines_args_step. apply IHa.
     - (* the entry loop of QDict.parse *)
       intros s d. cbn [gen_QDict_parse_while1 parse_dict].
-      destruct (Nat.ltb 0 (length (strip s))) eqn:El; [|done_refines].
-      destruct (strip s) as [|c0 r0]; [discriminate El|]. cbn [first_char bind]. cbv zeta.
+      rewrite ?(ltb0_len (strip s)).
+      destruct (strip s) as [|c0 r0]; cbn [is_empty negb]; [done_refines|]. cbn [first_char bind]. cbv zeta.
       unfold_chars. destruct (Nat.ltb 0 (length d)); cbn [andb]; [destruct (c0 =? 44)|];
         cbn [drop skipn]; dict_rest IHt IHd.
     - (* the entry loop of QList.parse *)
       intros s l. cbn [gen_QList_parse_while1 parse_list].
-      destruct (Nat.ltb 0 (length (strip s))) eqn:El; [|done_refines].
-      destruct (strip s) as [|c0 r0]; [discriminate El|]. cbn [first_char bind]. cbv zeta.
+      rewrite ?(ltb0_len (strip s)).
+      destruct (strip s) as [|c0 r0]; cbn [is_empty negb]; [done_refines|]. cbn [first_char bind]. cbv zeta.
       unfold_chars. destruct (Nat.ltb 0 (length l)); cbn [andb]; [destruct (c0 =? 44)|];
         cbn [drop skipn]; list_rest IHt IHl.
   Qed.
@@ -361,3 +363,78 @@ Proof.
   change [82; 69; 84; 85; 82; 78] with s_RETURN.
   destruct (dict_get ns s_RETURN); reflexivity.
 Qed.
+
+(* ---------------------------------------------------------------- functions.py: q2_typecheck *)
+
+Lemma bridge_verify_variable_is_type : forall a t,
+  gen_verify_variable_is_type a t = if isinstance a t then Ok tt else Err FunctionError.
+Proof. intros a t. unfold gen_verify_variable_is_type. destruct (isinstance a t); reflexivity. Qed.
+
+Lemma skipn_nth_cons {A} : forall (l : list A) i, (i < length l)%nat ->
+  exists a, nth_error l i = Some a /\ skipn i l = a :: skipn (S i) l.
+Proof.
+  induction l as [|x l IH]; intros i H; cbn [length] in H; [lia|].
+  destruct i as [|i]; [exists x; split; reflexivity|].
+  destruct (IH i) as (a & E1 & E2); [lia|]. exists a. split; [exact E1|exact E2].
+Qed.
+
+(* the index-driven loop `for i, p in enumerate(sig.parameters): .. if i >= len(args): break .. args[i]`
+   against the model's simultaneous recursion over parameters and arguments *)
+Lemma bridge_typecheck_loop : forall sig i args,
+  gen_typecheck_loop1 i args sig = typecheck sig (skipn i args).
+Proof.
+  induction sig as [|k sig IH]; intros i args; cbn [gen_typecheck_loop1 typecheck]; [reflexivity|].
+  destruct (Nat.leb (length args) i) eqn:E.
+  - rewrite skipn_all2 by (apply Nat.leb_le; exact E). reflexivity.
+  - apply Nat.leb_gt in E. destruct (skipn_nth_cons args i E) as (a & E1 & E2). rewrite E2.
+    destruct k; cbn [pk_annotation_in pk_no_default andb]; try apply IH.
+    assert (Ht : existsb (ptype_eqb t) [PList; PStr; PInt; PFloat] = true) by (destruct t; reflexivity).
+    rewrite Ht. cbn [andb]. unfold list_index. rewrite E1. cbn [bind pk_annotation].
+    rewrite bridge_verify_variable_is_type. destruct (isinstance a t); cbn [bind]; [apply IH|reflexivity].
+Qed.
+
+Lemma bridge_typecheck : forall sig args, gen_typecheck sig args = typecheck sig args.
+Proof.
+  intros sig args. unfold gen_typecheck. rewrite bridge_typecheck_loop. cbn [skipn].
+  destruct (typecheck sig args) as [[]|c|]; reflexivity.
+Qed.
+
+(* ---------------------------------------------------------------- functions.py: q2_function's wrapper g *)
+
+(* functions[name](datastore, namespace, *values): which of the two leading arguments reach the function *)
+Lemma bridge_q2_function_g : forall sig (vals : list arg),
+  gen_q2_function_g sig ADatastore ANamespace vals =
+  Ok ((if existsb is_pdatastore sig then [ADatastore] else []) ++
+      (if existsb is_pnamespace sig then [ANamespace] else []) ++ vals).
+Proof.
+  intros sig vals. unfold gen_q2_function_g.
+  change (existsb pk_is_namespace sig) with (existsb is_pnamespace sig).
+  change (existsb pk_is_datastore sig) with (existsb is_pdatastore sig).
+  destruct (existsb is_pnamespace sig), (existsb is_pdatastore sig); reflexivity.
+Qed.
+
+(* ---------------------------------------------------------------- the interpreter side: text tie only *)
+
+(* the six interpret methods, interpret() and query() read as they did when Model/Query.v's interp,
+   interpret_stmt, run_stmts and run were written (translate/k_query.py: INTERPRETER_TEXT) *)
+Lemma bridge_interpreter_text : gen_interpreter_text_ok = true.
+Proof. reflexivity. Qed.
+
+(* ---------------------------------------------------------------- the generated code computes (non-vacuity) *)
+
+From Coq Require Import String.
+Local Open Scope string_scope.
+
+Example gen_parse_stmt_computes :
+  gen_parse_stmt 4300 (zs "RETURN = f([1, {'a': x}], ""s,)"", g( 2 ))") create_namespace
+  = Ok (QVariable (zs "RETURN") VNone,
+        QFunction (zs "f")
+          [QList [QInteger 1; QDict [(zs "a", QVariable (zs "x") VNone)]]; QString (zs "s,)");
+           QFunction (zs "g") [QInteger 2]]).
+Proof. vm_compute. reflexivity. Qed.
+
+Example gen_typecheck_computes :
+  gen_typecheck [PDatastore; PTyped PStr; PTyped PInt; PDefault] [ADatastore; AVal (VStr []); AVal (VStr [])]
+  = Err FunctionError
+  /\ gen_typecheck [PTyped PList; PTyped PInt] [AVal (VList [])] = Ok tt.
+Proof. split; reflexivity. Qed.
